@@ -473,6 +473,11 @@ func main() {
 					results[cur].Truncated = true
 					alts = nil
 				}
+				if *maxtime > 0 && time.Since(t0).Seconds() > float64(*maxtime) && len(alts) > 0 {
+					// past the deadline nothing new is started: the exploration is reported as truncated (never as passed)
+					results[cur].Truncated = true
+					alts = nil
+				}
 				for _, a := range alts {
 					stack = append(stack, task{cur, a})
 				}
